@@ -252,8 +252,13 @@ let run_c18 toks =
       | ["exp"; k; fl; _] ->
         let fl = int_of_string fl in
         let kb = export_keyed m.ms_files m.ms_cass (bytes_of_hex k) N0 N0 (fl land 1 <> 0) (fl land 2 <> 0) (fl land 4 <> 0) in
-        let r = Printf.sprintf "exp%d %s" !ne (describe_model_bytes kb) in incr ne; Some r
-      | _ -> None) ops
+        let r = Printf.sprintf "exp%d %s" !ne (describe_model_bytes kb) in
+        (* export_with_expiration of that export *)
+        let rx = (match load_footer kb with
+            | Some ft -> Printf.sprintf "rex%d %s" !ne (describe_model_bytes (export_with_expiration kb ft N0))
+            | None -> Printf.sprintf "rex%d MODEL-CANNOT-LOAD-OWN-EXPORT" !ne) in
+        incr ne; Some [r; rx]
+      | _ -> None) ops |> List.concat
 
 (* the shard manager (stream mgr): shards are the groups with C ops, `key K f` exports under a key, `cap N`, `tgt T`, then the
    script: `R i`, `A <block>`, `FL`, `qd ..` *)
